@@ -208,6 +208,14 @@ Definition rx_fn_run (fn : Z) (i : tree) : tree :=
   | 12 =>
     TL (run_rounds (Z.to_nat (t_int (t_nth 0 i))) (Z.to_nat (t_int (t_nth 1 i))) rx_init [] O (t_list (t_nth 2 i)))
   | 13 => writefail_run i
+  | 17 =>
+    (* drain API after a transport failure at offset k: one successful "read up to the final DONE" per final DONE among the
+       packages of the completely received packets, then the transport's error *)
+    let stream := t_bytes (t_nth 0 i) in
+    let k := t_int (t_nth 2 i) in
+    let '(esk, _) := route_items rx_init (parse_stream (S (length stream)) (ztake k stream)) in
+    let '(q, _) := queue_of_events esk in
+    TL [TI (zlen (filter is_done_final q)); TI 1]
   | 15 =>
     out_tree (blank_out (run_pkts_cont (Z.to_nat (t_int (t_nth 0 i))) (Z.to_nat (t_int (t_nth 1 i))) rx_init (t_int (t_nth 2 i))
                                        (map packet_of_tree (t_list (t_nth 3 i)))))
@@ -242,6 +250,14 @@ Definition rx_fn_spec (fn : Z) (i o : tree) : bool :=
     is_prefix_tree got want && is_prefix_tree wantk got && (length got =? length wantk)%nat && (t_int (t_nth 2 o) =? 1)
   | 12 => forallb (fun io => round_drained_ok (fst io) (snd io)) (combine (t_list (t_nth 2 i)) (t_list o))
   | 13 => writefail_spec i o
+  | 17 =>
+    (* never the end-of-response signal for a response that was cut off: the drained count is at most the number of final
+       DONEs completely received, and the call after them reports the failure (class 1) *)
+    let stream := t_bytes (t_nth 0 i) in
+    let k := t_int (t_nth 2 i) in
+    let '(esk, _) := route_items rx_init (parse_stream (S (length stream)) (ztake k stream)) in
+    let '(q, _) := queue_of_events esk in
+    (t_int (t_nth 0 o) =? zlen (filter is_done_final q)) && (t_int (t_nth 1 o) =? 1)
   | 16 =>
     negb (existsb (fun pk => existsb (fun e => tree_eqb e (TL [TI 7; TI (-1)])) (t_list (t_nth 0 pk))) (t_list o))
   | 15 =>
